@@ -102,15 +102,20 @@ func tailStr(s string, n int) string {
 	return s
 }
 
-// envVariant returns one of three process environments: inherited, minimal (as under `env -i`), hostile
+// envVariant returns one of four process environments: inherited, minimal (as under `env -i`), TMPDIR on another file system, hostile
 // (Turkish locale, far-away time zone, unusable TMPDIR/HOME, aggressive GC).
 func envVariant(k int, extra ...string) []string {
 	var env []string
-	switch k % 3 {
+	switch k % 4 {
 	case 0:
 		env = os.Environ()
 	case 1:
 		env = []string{"PATH=" + os.Getenv("PATH")}
+	case 3:
+		// temporary files would land on another file system than the working directory
+		td := fmt.Sprintf("/dev/shm/verif-tmp-%d", os.Getpid())
+		_ = os.MkdirAll(td, 0o755)
+		env = append(os.Environ(), "TMPDIR="+td)
 	case 2:
 		env = append(os.Environ(), "LANG=tr_TR.UTF-8", "LC_ALL=tr_TR.UTF-8", "LANGUAGE=tr", "TZ=Pacific/Kiritimati", "TMPDIR=/nonexistent/tmp", "HOME=/nonexistent/home", "GOGC=1", "COLUMNS=1", "NO_COLOR=1", "DEBUG=1", "VERBOSE=1", "CI=true")
 	}
